@@ -4,22 +4,67 @@ C04 proofs — structural invariants (parSet, isoRoot, parDone, ownsSt, ownerPar
 import TbbVerif.Proofs.C04.StructB
 
 namespace TbbVerif.C04
-variable {cfg : Cfg} {reg : List Nat} {s : St} {t : Nat}
+variable {cfg : Cfg} {r : List RF} {reg : List Nat} {s : St} {t : Nat}
+
+theorem parSet_exec_c (hS : Struct reg s) :
+    ∀ x p, (execCancel cfg reg s t).par x = some p → (execCancel cfg reg s t).cst x ≠ .created ∧ (execCancel cfg reg s t).depth x = (execCancel cfg reg s t).depth p + 1 := by
+  have g0 := hS.parSet
+  have g1 := hS.parDone
+  have g2 := hS.bindAlive
+  have g2t := hS.bindAlive t
+  unfold execCancel
+  try unfold walkNext
+  try unfold afterHint
+  try unfold applyReset
+  repeat' split
+  all_goals (try rw [‹s.pc t = _›] at g2t)
+  all_goals (try simp [Pc.bindParent, okParent] at g2t)
+  all_goals (intro x p h1; try simp [upd_apply, afterLists, nextList] at h1 ⊢)
+  all_goals grind [Pc.bindParent, okParent]
+
+theorem parSet_exec_b (hS : Struct reg s) :
+    ∀ x p, (execBind cfg s t).par x = some p → (execBind cfg s t).cst x ≠ .created ∧ (execBind cfg s t).depth x = (execBind cfg s t).depth p + 1 := by
+  have g0 := hS.parSet
+  have g1 := hS.parDone
+  have g2 := hS.bindAlive
+  have g2t := hS.bindAlive t
+  unfold execBind
+  try unfold walkNext
+  try unfold afterHint
+  try unfold applyReset
+  repeat' split
+  all_goals (try rw [‹s.pc t = _›] at g2t)
+  all_goals (try simp [Pc.bindParent, okParent] at g2t)
+  all_goals (intro x p h1; try simp [upd_apply, afterLists, nextList] at h1 ⊢)
+  all_goals grind [Pc.bindParent, okParent]
+
+theorem parSet_exec_o (hS : Struct reg s) :
+    ∀ x p, (execOther s t).par x = some p → (execOther s t).cst x ≠ .created ∧ (execOther s t).depth x = (execOther s t).depth p + 1 := by
+  have g0 := hS.parSet
+  have g1 := hS.parDone
+  have g2 := hS.bindAlive
+  have g2t := hS.bindAlive t
+  unfold execOther
+  try unfold walkNext
+  try unfold afterHint
+  try unfold applyReset
+  repeat' split
+  all_goals (try rw [‹s.pc t = _›] at g2t)
+  all_goals (try simp [Pc.bindParent, okParent] at g2t)
+  all_goals (intro x p h1; try simp [upd_apply, afterLists, nextList] at h1 ⊢)
+  all_goals grind [Pc.bindParent, okParent]
 
 theorem parSet_exec (hS : Struct reg s) :
     ∀ x p, (exec cfg reg s t).par x = some p → (exec cfg reg s t).cst x ≠ .created ∧ (exec cfg reg s t).depth x = (exec cfg reg s t).depth p + 1 := by
-  have g0 := hS.parSet
-  have g1 := hS.parDone
-  have g2 := hS.bindAlive
-  have g2t := hS.bindAlive t
-  exec_cases
-  all_goals (try rw [‹s.pc t = _›] at g2t)
-  all_goals (try simp [Pc.bindParent, okParent] at g2t)
-  all_goals (intro x p h1; try simp [upd_apply, afterLists, nextList] at h1 ⊢)
-  all_goals grind [Pc.bindParent, okParent]
+  unfold exec
+  split
+  · exact parSet_exec_c hS
+  · split
+    · exact parSet_exec_b hS
+    · exact parSet_exec_o hS
 
 theorem parSet_begin (hS : Struct reg s) (hi : s.pc t = .idle) :
-    ∀ x p, (begin reg s t).par x = some p → (begin reg s t).cst x ≠ .created ∧ (begin reg s t).depth x = (begin reg s t).depth p + 1 := by
+    ∀ x p, (begin cfg reg s t).par x = some p → (begin cfg reg s t).cst x ≠ .created ∧ (begin cfg reg s t).depth x = (begin cfg reg s t).depth p + 1 := by
   have g0 := hS.parSet
   have g1 := hS.parDone
   have g2 := hS.bindAlive
@@ -29,24 +74,75 @@ theorem parSet_begin (hS : Struct reg s) (hi : s.pc t = .idle) :
   all_goals (try simp [Pc.bindParent, okParent] at g2t)
   all_goals (intro x p h1; try simp [upd_apply, afterLists, nextList] at h1 ⊢)
   all_goals grind [Pc.bindParent, okParent]
+
+theorem isoRoot_exec_c (hS : Struct reg s) :
+    ∀ x, (execCancel cfg reg s t).cst x = .isolated → (execCancel cfg reg s t).par x = none := by
+  have g0 := hS.isoRoot
+  have g1 := hS.ownsSt
+  have g1t := hS.ownsSt t
+  have g2 := hS.ownerPar
+  have g2t := hS.ownerPar t
+  unfold execCancel
+  try unfold walkNext
+  try unfold afterHint
+  try unfold applyReset
+  repeat' split
+  all_goals (try rw [‹s.pc t = _›] at g1t)
+  all_goals (try simp [Pc.owner, Pc.owns] at g1t)
+  all_goals (try rw [‹s.pc t = _›] at g2t)
+  all_goals (try simp [Pc.owner, Pc.owns] at g2t)
+  all_goals (intro x h1; try simp [upd_apply, afterLists, nextList] at h1 ⊢)
+  all_goals grind [Pc.owner, Pc.owns]
+
+theorem isoRoot_exec_b (hS : Struct reg s) :
+    ∀ x, (execBind cfg s t).cst x = .isolated → (execBind cfg s t).par x = none := by
+  have g0 := hS.isoRoot
+  have g1 := hS.ownsSt
+  have g1t := hS.ownsSt t
+  have g2 := hS.ownerPar
+  have g2t := hS.ownerPar t
+  unfold execBind
+  try unfold walkNext
+  try unfold afterHint
+  try unfold applyReset
+  repeat' split
+  all_goals (try rw [‹s.pc t = _›] at g1t)
+  all_goals (try simp [Pc.owner, Pc.owns] at g1t)
+  all_goals (try rw [‹s.pc t = _›] at g2t)
+  all_goals (try simp [Pc.owner, Pc.owns] at g2t)
+  all_goals (intro x h1; try simp [upd_apply, afterLists, nextList] at h1 ⊢)
+  all_goals grind [Pc.owner, Pc.owns]
+
+theorem isoRoot_exec_o (hS : Struct reg s) :
+    ∀ x, (execOther s t).cst x = .isolated → (execOther s t).par x = none := by
+  have g0 := hS.isoRoot
+  have g1 := hS.ownsSt
+  have g1t := hS.ownsSt t
+  have g2 := hS.ownerPar
+  have g2t := hS.ownerPar t
+  unfold execOther
+  try unfold walkNext
+  try unfold afterHint
+  try unfold applyReset
+  repeat' split
+  all_goals (try rw [‹s.pc t = _›] at g1t)
+  all_goals (try simp [Pc.owner, Pc.owns] at g1t)
+  all_goals (try rw [‹s.pc t = _›] at g2t)
+  all_goals (try simp [Pc.owner, Pc.owns] at g2t)
+  all_goals (intro x h1; try simp [upd_apply, afterLists, nextList] at h1 ⊢)
+  all_goals grind [Pc.owner, Pc.owns]
 
 theorem isoRoot_exec (hS : Struct reg s) :
     ∀ x, (exec cfg reg s t).cst x = .isolated → (exec cfg reg s t).par x = none := by
-  have g0 := hS.isoRoot
-  have g1 := hS.ownsSt
-  have g1t := hS.ownsSt t
-  have g2 := hS.ownerPar
-  have g2t := hS.ownerPar t
-  exec_cases
-  all_goals (try rw [‹s.pc t = _›] at g1t)
-  all_goals (try simp [Pc.owner, Pc.owns] at g1t)
-  all_goals (try rw [‹s.pc t = _›] at g2t)
-  all_goals (try simp [Pc.owner, Pc.owns] at g2t)
-  all_goals (intro x h1; try simp [upd_apply, afterLists, nextList] at h1 ⊢)
-  all_goals grind [Pc.owner, Pc.owns]
+  unfold exec
+  split
+  · exact isoRoot_exec_c hS
+  · split
+    · exact isoRoot_exec_b hS
+    · exact isoRoot_exec_o hS
 
 theorem isoRoot_begin (hS : Struct reg s) (hi : s.pc t = .idle) :
-    ∀ x, (begin reg s t).cst x = .isolated → (begin reg s t).par x = none := by
+    ∀ x, (begin cfg reg s t).cst x = .isolated → (begin cfg reg s t).par x = none := by
   have g0 := hS.isoRoot
   have g1 := hS.ownsSt
   have g1t := hS.ownsSt t
@@ -59,24 +155,75 @@ theorem isoRoot_begin (hS : Struct reg s) (hi : s.pc t = .idle) :
   all_goals (try simp [Pc.owner, Pc.owns] at g2t)
   all_goals (intro x h1; try simp [upd_apply, afterLists, nextList] at h1 ⊢)
   all_goals grind [Pc.owner, Pc.owns]
+
+theorem parDone_exec_c (hS : Struct reg s) :
+    ∀ y p, (execCancel cfg reg s t).par y = some p → (execCancel cfg reg s t).cst p ≠ .created ∧ (execCancel cfg reg s t).cst p ≠ .locked := by
+  have g0 := hS.parDone
+  have g1 := hS.bindAlive
+  have g1t := hS.bindAlive t
+  have g2 := hS.ownsSt
+  have g2t := hS.ownsSt t
+  unfold execCancel
+  try unfold walkNext
+  try unfold afterHint
+  try unfold applyReset
+  repeat' split
+  all_goals (try rw [‹s.pc t = _›] at g1t)
+  all_goals (try simp [Pc.bindParent, Pc.owns, okParent] at g1t)
+  all_goals (try rw [‹s.pc t = _›] at g2t)
+  all_goals (try simp [Pc.bindParent, Pc.owns, okParent] at g2t)
+  all_goals (intro y p h1; try simp [upd_apply, afterLists, nextList] at h1 ⊢)
+  all_goals grind [Pc.bindParent, Pc.owns, okParent]
+
+theorem parDone_exec_b (hS : Struct reg s) :
+    ∀ y p, (execBind cfg s t).par y = some p → (execBind cfg s t).cst p ≠ .created ∧ (execBind cfg s t).cst p ≠ .locked := by
+  have g0 := hS.parDone
+  have g1 := hS.bindAlive
+  have g1t := hS.bindAlive t
+  have g2 := hS.ownsSt
+  have g2t := hS.ownsSt t
+  unfold execBind
+  try unfold walkNext
+  try unfold afterHint
+  try unfold applyReset
+  repeat' split
+  all_goals (try rw [‹s.pc t = _›] at g1t)
+  all_goals (try simp [Pc.bindParent, Pc.owns, okParent] at g1t)
+  all_goals (try rw [‹s.pc t = _›] at g2t)
+  all_goals (try simp [Pc.bindParent, Pc.owns, okParent] at g2t)
+  all_goals (intro y p h1; try simp [upd_apply, afterLists, nextList] at h1 ⊢)
+  all_goals grind [Pc.bindParent, Pc.owns, okParent]
+
+theorem parDone_exec_o (hS : Struct reg s) :
+    ∀ y p, (execOther s t).par y = some p → (execOther s t).cst p ≠ .created ∧ (execOther s t).cst p ≠ .locked := by
+  have g0 := hS.parDone
+  have g1 := hS.bindAlive
+  have g1t := hS.bindAlive t
+  have g2 := hS.ownsSt
+  have g2t := hS.ownsSt t
+  unfold execOther
+  try unfold walkNext
+  try unfold afterHint
+  try unfold applyReset
+  repeat' split
+  all_goals (try rw [‹s.pc t = _›] at g1t)
+  all_goals (try simp [Pc.bindParent, Pc.owns, okParent] at g1t)
+  all_goals (try rw [‹s.pc t = _›] at g2t)
+  all_goals (try simp [Pc.bindParent, Pc.owns, okParent] at g2t)
+  all_goals (intro y p h1; try simp [upd_apply, afterLists, nextList] at h1 ⊢)
+  all_goals grind [Pc.bindParent, Pc.owns, okParent]
 
 theorem parDone_exec (hS : Struct reg s) :
     ∀ y p, (exec cfg reg s t).par y = some p → (exec cfg reg s t).cst p ≠ .created ∧ (exec cfg reg s t).cst p ≠ .locked := by
-  have g0 := hS.parDone
-  have g1 := hS.bindAlive
-  have g1t := hS.bindAlive t
-  have g2 := hS.ownsSt
-  have g2t := hS.ownsSt t
-  exec_cases
-  all_goals (try rw [‹s.pc t = _›] at g1t)
-  all_goals (try simp [Pc.bindParent, Pc.owns, okParent] at g1t)
-  all_goals (try rw [‹s.pc t = _›] at g2t)
-  all_goals (try simp [Pc.bindParent, Pc.owns, okParent] at g2t)
-  all_goals (intro y p h1; try simp [upd_apply, afterLists, nextList] at h1 ⊢)
-  all_goals grind [Pc.bindParent, Pc.owns, okParent]
+  unfold exec
+  split
+  · exact parDone_exec_c hS
+  · split
+    · exact parDone_exec_b hS
+    · exact parDone_exec_o hS
 
 theorem parDone_begin (hS : Struct reg s) (hi : s.pc t = .idle) :
-    ∀ y p, (begin reg s t).par y = some p → (begin reg s t).cst p ≠ .created ∧ (begin reg s t).cst p ≠ .locked := by
+    ∀ y p, (begin cfg reg s t).par y = some p → (begin cfg reg s t).cst p ≠ .created ∧ (begin cfg reg s t).cst p ≠ .locked := by
   have g0 := hS.parDone
   have g1 := hS.bindAlive
   have g1t := hS.bindAlive t
@@ -90,8 +237,8 @@ theorem parDone_begin (hS : Struct reg s) (hi : s.pc t = .idle) :
   all_goals (intro y p h1; try simp [upd_apply, afterLists, nextList] at h1 ⊢)
   all_goals grind [Pc.bindParent, Pc.owns, okParent]
 
-theorem ownsSt_exec (hS : Struct reg s) :
-    ∀ t' x, ((exec cfg reg s t).pc t').owns = some x → (exec cfg reg s t).cst x = .locked := by
+theorem ownsSt_exec_c (hS : Struct reg s) :
+    ∀ t' x, ((execCancel cfg reg s t).pc t').owns = some x → (execCancel cfg reg s t).cst x = .locked := by
   have g0 := hS.ownsSt
   have g0t := hS.ownsSt t
   have g1 := hS.ownsUnique
@@ -100,7 +247,11 @@ theorem ownsSt_exec (hS : Struct reg s) :
   have g2t := hS.bindNotDying t
   have g3 := hS.dyingOk
   have g3t := hS.dyingOk t
-  exec_cases
+  unfold execCancel
+  try unfold walkNext
+  try unfold afterHint
+  try unfold applyReset
+  repeat' split
   all_goals (try rw [‹s.pc t = _›] at g0t)
   all_goals (try simp [Pc.owns, Pc.owns_bindTarget, Pc.bindTarget, Pc.destroying] at g0t)
   all_goals (try rw [‹s.pc t = _›] at g1t)
@@ -112,8 +263,69 @@ theorem ownsSt_exec (hS : Struct reg s) :
   all_goals (intro t' x h1; by_cases ht : t' = t <;> first | (subst ht; try simp [upd_apply, afterLists, nextList, Pc.owns, Pc.owns_bindTarget, Pc.bindTarget, Pc.destroying] at h1 ⊢) | (try simp [ht, upd_apply, afterLists, nextList] at h1 ⊢))
   all_goals grind [Pc.owns, Pc.owns_bindTarget, Pc.bindTarget, Pc.destroying]
 
+theorem ownsSt_exec_b (hS : Struct reg s) :
+    ∀ t' x, ((execBind cfg s t).pc t').owns = some x → (execBind cfg s t).cst x = .locked := by
+  have g0 := hS.ownsSt
+  have g0t := hS.ownsSt t
+  have g1 := hS.ownsUnique
+  have g1t := hS.ownsUnique t
+  have g2 := hS.bindNotDying
+  have g2t := hS.bindNotDying t
+  have g3 := hS.dyingOk
+  have g3t := hS.dyingOk t
+  unfold execBind
+  try unfold walkNext
+  try unfold afterHint
+  try unfold applyReset
+  repeat' split
+  all_goals (try rw [‹s.pc t = _›] at g0t)
+  all_goals (try simp [Pc.owns, Pc.owns_bindTarget, Pc.bindTarget, Pc.destroying] at g0t)
+  all_goals (try rw [‹s.pc t = _›] at g1t)
+  all_goals (try simp [Pc.owns, Pc.owns_bindTarget, Pc.bindTarget, Pc.destroying] at g1t)
+  all_goals (try rw [‹s.pc t = _›] at g2t)
+  all_goals (try simp [Pc.owns, Pc.owns_bindTarget, Pc.bindTarget, Pc.destroying] at g2t)
+  all_goals (try rw [‹s.pc t = _›] at g3t)
+  all_goals (try simp [Pc.owns, Pc.owns_bindTarget, Pc.bindTarget, Pc.destroying] at g3t)
+  all_goals (intro t' x h1; by_cases ht : t' = t <;> first | (subst ht; try simp [upd_apply, afterLists, nextList, Pc.owns, Pc.owns_bindTarget, Pc.bindTarget, Pc.destroying] at h1 ⊢) | (try simp [ht, upd_apply, afterLists, nextList] at h1 ⊢))
+  all_goals grind [Pc.owns, Pc.owns_bindTarget, Pc.bindTarget, Pc.destroying]
+
+theorem ownsSt_exec_o (hS : Struct reg s) :
+    ∀ t' x, ((execOther s t).pc t').owns = some x → (execOther s t).cst x = .locked := by
+  have g0 := hS.ownsSt
+  have g0t := hS.ownsSt t
+  have g1 := hS.ownsUnique
+  have g1t := hS.ownsUnique t
+  have g2 := hS.bindNotDying
+  have g2t := hS.bindNotDying t
+  have g3 := hS.dyingOk
+  have g3t := hS.dyingOk t
+  unfold execOther
+  try unfold walkNext
+  try unfold afterHint
+  try unfold applyReset
+  repeat' split
+  all_goals (try rw [‹s.pc t = _›] at g0t)
+  all_goals (try simp [Pc.owns, Pc.owns_bindTarget, Pc.bindTarget, Pc.destroying] at g0t)
+  all_goals (try rw [‹s.pc t = _›] at g1t)
+  all_goals (try simp [Pc.owns, Pc.owns_bindTarget, Pc.bindTarget, Pc.destroying] at g1t)
+  all_goals (try rw [‹s.pc t = _›] at g2t)
+  all_goals (try simp [Pc.owns, Pc.owns_bindTarget, Pc.bindTarget, Pc.destroying] at g2t)
+  all_goals (try rw [‹s.pc t = _›] at g3t)
+  all_goals (try simp [Pc.owns, Pc.owns_bindTarget, Pc.bindTarget, Pc.destroying] at g3t)
+  all_goals (intro t' x h1; by_cases ht : t' = t <;> first | (subst ht; try simp [upd_apply, afterLists, nextList, Pc.owns, Pc.owns_bindTarget, Pc.bindTarget, Pc.destroying] at h1 ⊢) | (try simp [ht, upd_apply, afterLists, nextList] at h1 ⊢))
+  all_goals grind [Pc.owns, Pc.owns_bindTarget, Pc.bindTarget, Pc.destroying]
+
+theorem ownsSt_exec (hS : Struct reg s) :
+    ∀ t' x, ((exec cfg reg s t).pc t').owns = some x → (exec cfg reg s t).cst x = .locked := by
+  unfold exec
+  split
+  · exact ownsSt_exec_c hS
+  · split
+    · exact ownsSt_exec_b hS
+    · exact ownsSt_exec_o hS
+
 theorem ownsSt_begin (hS : Struct reg s) (hi : s.pc t = .idle) :
-    ∀ t' x, ((begin reg s t).pc t').owns = some x → (begin reg s t).cst x = .locked := by
+    ∀ t' x, ((begin cfg reg s t).pc t').owns = some x → (begin cfg reg s t).cst x = .locked := by
   have g0 := hS.ownsSt
   have g0t := hS.ownsSt t
   have g1 := hS.ownsUnique
@@ -134,13 +346,17 @@ theorem ownsSt_begin (hS : Struct reg s) (hi : s.pc t = .idle) :
   all_goals (intro t' x h1; by_cases ht : t' = t <;> first | (subst ht; try simp [upd_apply, afterLists, nextList, Pc.owns, Pc.owns_bindTarget, Pc.bindTarget, Pc.destroying] at h1 ⊢) | (try simp [ht, upd_apply, afterLists, nextList] at h1 ⊢))
   all_goals grind [Pc.owns, Pc.owns_bindTarget, Pc.bindTarget, Pc.destroying]
 
-theorem ownerPar_exec (hS : Struct reg s) :
-    ∀ t' x p, ((exec cfg reg s t).pc t').owner = some (x, p) → (exec cfg reg s t).par x = p := by
+theorem ownerPar_exec_c (hS : Struct reg s) :
+    ∀ t' x p, ((execCancel cfg reg s t).pc t').owner = some (x, p) → (execCancel cfg reg s t).par x = p := by
   have g0 := hS.ownerPar
   have g0t := hS.ownerPar t
   have g1 := hS.ownsSt
   have g1t := hS.ownsSt t
-  exec_cases
+  unfold execCancel
+  try unfold walkNext
+  try unfold afterHint
+  try unfold applyReset
+  repeat' split
   all_goals (try rw [‹s.pc t = _›] at g0t)
   all_goals (try simp [Pc.owner, Pc.owns, Pc.owner_owns] at g0t)
   all_goals (try rw [‹s.pc t = _›] at g1t)
@@ -148,8 +364,53 @@ theorem ownerPar_exec (hS : Struct reg s) :
   all_goals (intro t' x p h1; by_cases ht : t' = t <;> first | (subst ht; try simp [upd_apply, afterLists, nextList, Pc.owner, Pc.owns, Pc.owner_owns] at h1 ⊢) | (try simp [ht, upd_apply, afterLists, nextList] at h1 ⊢))
   all_goals grind [Pc.owner, Pc.owns, Pc.owner_owns]
 
+theorem ownerPar_exec_b (hS : Struct reg s) :
+    ∀ t' x p, ((execBind cfg s t).pc t').owner = some (x, p) → (execBind cfg s t).par x = p := by
+  have g0 := hS.ownerPar
+  have g0t := hS.ownerPar t
+  have g1 := hS.ownsSt
+  have g1t := hS.ownsSt t
+  unfold execBind
+  try unfold walkNext
+  try unfold afterHint
+  try unfold applyReset
+  repeat' split
+  all_goals (try rw [‹s.pc t = _›] at g0t)
+  all_goals (try simp [Pc.owner, Pc.owns, Pc.owner_owns] at g0t)
+  all_goals (try rw [‹s.pc t = _›] at g1t)
+  all_goals (try simp [Pc.owner, Pc.owns, Pc.owner_owns] at g1t)
+  all_goals (intro t' x p h1; by_cases ht : t' = t <;> first | (subst ht; try simp [upd_apply, afterLists, nextList, Pc.owner, Pc.owns, Pc.owner_owns] at h1 ⊢) | (try simp [ht, upd_apply, afterLists, nextList] at h1 ⊢))
+  all_goals grind [Pc.owner, Pc.owns, Pc.owner_owns]
+
+theorem ownerPar_exec_o (hS : Struct reg s) :
+    ∀ t' x p, ((execOther s t).pc t').owner = some (x, p) → (execOther s t).par x = p := by
+  have g0 := hS.ownerPar
+  have g0t := hS.ownerPar t
+  have g1 := hS.ownsSt
+  have g1t := hS.ownsSt t
+  unfold execOther
+  try unfold walkNext
+  try unfold afterHint
+  try unfold applyReset
+  repeat' split
+  all_goals (try rw [‹s.pc t = _›] at g0t)
+  all_goals (try simp [Pc.owner, Pc.owns, Pc.owner_owns] at g0t)
+  all_goals (try rw [‹s.pc t = _›] at g1t)
+  all_goals (try simp [Pc.owner, Pc.owns, Pc.owner_owns] at g1t)
+  all_goals (intro t' x p h1; by_cases ht : t' = t <;> first | (subst ht; try simp [upd_apply, afterLists, nextList, Pc.owner, Pc.owns, Pc.owner_owns] at h1 ⊢) | (try simp [ht, upd_apply, afterLists, nextList] at h1 ⊢))
+  all_goals grind [Pc.owner, Pc.owns, Pc.owner_owns]
+
+theorem ownerPar_exec (hS : Struct reg s) :
+    ∀ t' x p, ((exec cfg reg s t).pc t').owner = some (x, p) → (exec cfg reg s t).par x = p := by
+  unfold exec
+  split
+  · exact ownerPar_exec_c hS
+  · split
+    · exact ownerPar_exec_b hS
+    · exact ownerPar_exec_o hS
+
 theorem ownerPar_begin (hS : Struct reg s) (hi : s.pc t = .idle) :
-    ∀ t' x p, ((begin reg s t).pc t').owner = some (x, p) → (begin reg s t).par x = p := by
+    ∀ t' x p, ((begin cfg reg s t).pc t').owner = some (x, p) → (begin cfg reg s t).par x = p := by
   have g0 := hS.ownerPar
   have g0t := hS.ownerPar t
   have g1 := hS.ownsSt
